@@ -156,7 +156,7 @@ Section Dict.
     - rewrite Ha. simpl. apply IH. auto.
   Qed.
 
-  Lemma sorted_from_weaken : forall l k0, sorted_from k0 l = true -> sorted l = true.
+  Lemma sorted_from_weaken : forall (l : list (str * A)) k0, sorted_from k0 l = true -> sorted l = true.
   Proof.
     destruct l as [|[k' v'] r]; simpl; auto. intros k0 H.
     apply andb_true_iff in H. tauto.
@@ -170,13 +170,13 @@ Section Dict.
     - simpl. apply sorted_from_del. auto.
   Qed.
 
-  Lemma sorted_merge : forall new d, sorted d = true -> sorted (merge d new) = true.
+  Lemma sorted_merge : forall (new d : list (str * A)), sorted d = true -> sorted (merge d new) = true.
   Proof.
     induction new as [|[k v] r IH]; simpl; intros d H; auto.
     apply IH. apply sorted_ins. auto.
   Qed.
 
-  Lemma merge_app : forall a b d, merge d (a ++ b) = merge (merge d a) b.
+  Lemma merge_app : forall (a b d : list (str * A)), merge d (a ++ b) = merge (merge d a) b.
   Proof. induction a as [|[k v] r IH]; simpl; intros; auto. Qed.
 End Dict.
 Arguments lookup_ins_same {A}. Arguments lookup_ins_other {A}. Arguments lookup_ins {A}.
@@ -213,9 +213,9 @@ Qed.
 Lemma hex_digit_val : forall n, 0 <= n < 16 -> hex_val (hex_digit n) = Some n.
 Proof.
   intros n H.
-  assert (n = 0 \/ n = 1 \/ n = 2 \/ n = 3 \/ n = 4 \/ n = 5 \/ n = 6 \/ n = 7 \/ n = 8 \/ n = 9
-          \/ n = 10 \/ n = 11 \/ n = 12 \/ n = 13 \/ n = 14 \/ n = 15) as C by lia.
-  repeat (destruct C as [C|C]; [subst; reflexivity|]). subst; reflexivity.
+  replace n with (Z.of_nat (Z.to_nat n)) by lia.
+  assert (Z.to_nat n < 16)%nat as C by lia. revert C. generalize (Z.to_nat n). intros m C.
+  do 16 (destruct m as [|m]; [reflexivity|]). lia.
 Qed.
 
 Lemma hex_rt : forall bs, bytes_ok bs = true -> hex_dec (hex_enc bs) = Some bs.
@@ -225,7 +225,7 @@ Proof.
   unfold byte_ok in Hb.
   assert (0 <= b < 256) by lia.
   rewrite !hex_digit_val.
-  - rewrite IH; auto. f_equal. f_equal. pose proof (Z.div_mod b 16). lia.
+  - rewrite IH; auto. f_equal. f_equal. pose proof (Z.div_mod b 16 ltac:(lia)) as E. rewrite <- E. reflexivity.
   - apply Z.mod_pos_bound. lia.
   - split. apply Z.div_pos; lia. apply Z.div_lt_upper_bound; lia.
 Qed.
@@ -233,9 +233,9 @@ Qed.
 Lemma hex_digit_safe : forall n, 0 <= n < 16 -> safe (hex_digit n) = true.
 Proof.
   intros n H.
-  assert (n = 0 \/ n = 1 \/ n = 2 \/ n = 3 \/ n = 4 \/ n = 5 \/ n = 6 \/ n = 7 \/ n = 8 \/ n = 9
-          \/ n = 10 \/ n = 11 \/ n = 12 \/ n = 13 \/ n = 14 \/ n = 15) as C by lia.
-  repeat (destruct C as [C|C]; [subst; reflexivity|]). subst; reflexivity.
+  replace n with (Z.of_nat (Z.to_nat n)) by lia.
+  assert (Z.to_nat n < 16)%nat as C by lia. revert C. generalize (Z.to_nat n). intros m C.
+  do 16 (destruct m as [|m]; [reflexivity|]). lia.
 Qed.
 
 Lemma hex_enc_ok : forall bs, bytes_ok bs = true -> str_ok (hex_enc bs) = true.
